@@ -65,16 +65,59 @@ def verif_seed():
         return 1
 
 
+SEAM_REWRITES = [
+    (r"\b(?:::)?std::sync::atomic::", "crate::verif_seam::atomic::"),
+    (r"\b(?:::)?std::sync::(Mutex|RwLock|Condvar|Barrier|mpsc)\b", r"crate::verif_seam::\1"),
+    (r"\b(?:::)?std::thread::(spawn|scope|yield_now|sleep|park|current|Builder|JoinHandle|Scope|ScopedJoinHandle|available_parallelism)\b",
+     r"crate::verif_seam::thread::\1"),
+]
+
+
+def split_functions(text):
+    import re
+    return re.split(r"\n(?=    (?:pub )?(?:unsafe )?fn )", text)
+
+
+def patched_sources(src, dst):
+    """Copy `src` to `dst`; inside every function that imports the seam, thread / sync primitives written with
+    their full std path are redirected to the seam, so that the simulator schedules them too. Only used when
+    seam_report() found such paths; the unchanged tree is compiled straight from /repo/src."""
+    import re
+    if os.path.exists(dst):
+        shutil.rmtree(dst)
+    shutil.copytree(src, dst)
+    n = 0
+    for root, _, files in os.walk(dst):
+        for f in files:
+            if not f.endswith(".rs") or f == "verif_seam.rs":
+                continue
+            path = os.path.join(root, f)
+            text = open(path).read()
+            parts = split_functions(text)
+            out = []
+            for part in parts:
+                body, sep, tests = part.partition("\n#[cfg(test)]")
+                if "use crate::verif_seam::" in body and re.match(r"    (?:pub )?(?:unsafe )?fn ", body):
+                    for pat, rep in SEAM_REWRITES:
+                        body, k = re.subn(pat, rep, body)
+                        n += k
+                out.append(body + sep + tests)
+            new = "\n".join(out)
+            if new != text:
+                open(path, "w").write(new)
+    return n
+
+
 def workspace():
-    """Directory of the cargo workspace to build. /verif/sim compiles /repo/src;
-    with GRAAF_SRC=<dir>/src a scratch copy of the workspace (VERIF_WS, outside
-    /repo and /verif) is generated whose shadow manifest points there."""
-    src = os.environ.get("GRAAF_SRC")
-    if not src or os.path.abspath(src) == os.path.join(REPO, "src"):
+    """Directory of the cargo workspace to build. /verif/sim compiles /repo/src directly. A scratch copy of the
+    workspace (VERIF_WS, or a directory under /tmp derived from the source path; outside /repo and /verif) is
+    generated when GRAAF_SRC points elsewhere (self-tests) or when the sources use std thread/sync paths inside
+    a seamed function (then the shadow manifest points at a patched copy of the sources, see patched_sources)."""
+    src = os.path.abspath(os.environ.get("GRAAF_SRC") or os.path.join(REPO, "src"))
+    bypass = seam_report(src)["std_paths_inside_seamed_functions"]
+    if src == os.path.join(REPO, "src") and not bypass:
         return SIM
-    ws = os.environ.get("VERIF_WS")
-    if not ws:
-        raise SystemExit("GRAAF_SRC set but VERIF_WS (scratch workspace dir) is not")
+    ws = os.environ.get("VERIF_WS") or os.path.join("/tmp", "verif_ws_" + hashlib.sha1(src.encode()).hexdigest()[:12])
     ws = os.path.abspath(ws)
     if ws.startswith(REPO + "/") or ws.startswith(ROOT + "/"):
         raise SystemExit("VERIF_WS must be outside /repo and /verif")
@@ -82,15 +125,21 @@ def workspace():
     for name in os.listdir(SIM):
         if name.startswith("target") or name == ".build":
             continue
-        s, d = os.path.join(SIM, name), os.path.join(ws, name)
-        if os.path.isdir(s):
-            if os.path.exists(d):
-                shutil.rmtree(d)
-            shutil.copytree(s, d)
+        s_, d_ = os.path.join(SIM, name), os.path.join(ws, name)
+        if os.path.isdir(s_):
+            if os.path.exists(d_):
+                shutil.rmtree(d_)
+            shutil.copytree(s_, d_)
         else:
-            shutil.copy2(s, d)
+            shutil.copy2(s_, d_)
+    use_src = src
+    if bypass:
+        use_src = os.path.join(ws, "patched_src")
+        n = patched_sources(src, use_src)
+        log("NOTE %d std thread/sync path(s) inside seamed functions redirected to the seam in a patched copy of the "
+            "sources (%s)" % (n, "; ".join(bypass)))
     man = os.path.join(ws, "shadow", "Cargo.toml")
-    text = open(man).read().replace('path = "/repo/src/lib.rs"', 'path = "%s/lib.rs"' % os.path.abspath(src))
+    text = open(man).read().replace('path = "/repo/src/lib.rs"', 'path = "%s/lib.rs"' % use_src)
     open(man, "w").write(text)
     return ws
 
@@ -356,13 +405,13 @@ ASSUMPTIONS = [
 ]
 
 
-def seam_report():
+def seam_report(src=None):
     """Static look at the sources the checks are about to compile: thread / sync primitives written with their
     full std path inside a hand-threaded function bypass the seam (the shuttle lanes cannot preempt there;
     only the Miri lanes schedule them), and thread creation outside the functions that import the seam is
     not scheduled at all. Reported in the evidence and as a NOTE line; never an alarm."""
     import re
-    src = os.environ.get("GRAAF_SRC") or os.path.join(REPO, "src")
+    src = src or os.environ.get("GRAAF_SRC") or os.path.join(REPO, "src")
     bypass, unseamed = [], []
     for root, _, files in os.walk(src):
         for f in files:
@@ -453,7 +502,9 @@ def sched_phase(pid, tier, runs=None):
     sr = seam_report()
     for k, v in sr.items():
         if v:
-            log("NOTE %s: %s (the shuttle lanes cannot schedule these; the Miri lanes can)" % (k.replace("_", " "), "; ".join(v)))
+            how = "redirected to the seam in a patched copy of the sources for this run" if k.startswith("std_paths") \
+                else "not scheduled by the shuttle lanes; the Miri lanes schedule real threads"
+            log("NOTE %s: %s (%s)" % (k.replace("_", " "), "; ".join(v), how))
     # the digest files are large in the thorough tier (8 bytes per run / case / schedule): drop them
     for k in range(njobs):
         for ext in (".cases", ".scheds", ".runs"):
